@@ -13,25 +13,39 @@ theorem wrapAdd_eq (a : Nat) (off : Int) (h0 : 0 ≤ (a : Int) + off) (h1 : (a :
   have : ((a : Int) + off).emod 4294967296 = ((a : Int) + off) % 4294967296 := rfl
   rw [this]; omega
 
+/-- the label printed with wrapping arithmetic is the unwrapped sum whenever that is an address -/
+theorem wrapAdd_alPc (a : Nat) (off : Int) (h0 : 0 ≤ (Front.alPc a : Int) + off) (h1 : (Front.alPc a : Int) + off < 4294967296) :
+    ((wrapAdd (Show.alPc a) off : Nat) : Int) = (Front.alPc a : Int) + off := by
+  unfold wrapAdd Show.alPc
+  unfold Front.alPc at h0 h1 ⊢
+  have : ((((a / 4 * 4 + 4) % 4294967296 : Nat) : Int) + off).emod 4294967296 =
+      ((((a / 4 * 4 + 4) % 4294967296 : Nat) : Int) + off) % 4294967296 := rfl
+  rw [this]; omega
+theorem wrapAdd_pcOf (a : Nat) (off : Int) (h0 : 0 ≤ (Front.pcOf a : Int) + off) (h1 : (Front.pcOf a : Int) + off < 4294967296) :
+    ((wrapAdd (Show.pcOf a) off : Nat) : Int) = (Front.pcOf a : Int) + off := by
+  unfold wrapAdd Show.pcOf
+  unfold Front.pcOf at h0 h1 ⊢
+  have : ((((a + 4) % 4294967296 : Nat) : Int) + off).emod 4294967296 =
+      ((((a + 4) % 4294967296 : Nat) : Int) + off) % 4294967296 := rfl
+  rw [this]; omega
+
 theorem literal_target (a : Nat) (off : Int) (h0 : 0 ≤ off) (h1 : off ≤ 1020) (h4 : off % 4 = 0)
-    (ht : (Show.alPc a : Int) + off < 4294967296) :
+    (ht : (Front.alPc a : Int) + off < 4294967296) :
     literal a ((wrapAdd (Show.alPc a) off : Nat) : Int) = .ok off := by
-  have hal : Front.alPc a = Show.alPc a := rfl
-  rw [wrapAdd_eq _ _ (by omega) ht]
+  rw [wrapAdd_alPc _ _ (by omega) ht]
   unfold literal
-  simp only [hal]
-  have e : (↑(Show.alPc a) + off - ↑(Show.alPc a) : Int) = off := by omega
-  rw [e, if_neg (by omega), if_neg (by omega)]
+  have e : (↑(Front.alPc a) + off - ↑(Front.alPc a) : Int) = off := by omega
+  simp only [e]
+  rw [if_neg (by omega), if_neg (by omega)]
 
 theorem branch_target (a : Nat) (off lo hi : Int) (hlo : lo ≤ off) (hhi : off ≤ hi) (h2 : off % 2 = 0)
-    (h0 : 0 ≤ (Show.pcOf a : Int) + off) (ht : (Show.pcOf a : Int) + off < 4294967296) :
+    (h0 : 0 ≤ (Front.pcOf a : Int) + off) (ht : (Front.pcOf a : Int) + off < 4294967296) :
     branch a ((wrapAdd (Show.pcOf a) off : Nat) : Int) lo hi = .ok off := by
-  have hal : Front.pcOf a = Show.pcOf a := rfl
-  rw [wrapAdd_eq _ _ h0 ht]
+  rw [wrapAdd_pcOf _ _ h0 ht]
   unfold branch
-  simp only [hal]
-  have e : (↑(Show.pcOf a) + off - ↑(Show.pcOf a) : Int) = off := by omega
-  rw [e, if_neg (by omega), if_neg (by omega)]
+  have e : (↑(Front.pcOf a) + off - ↑(Front.pcOf a) : Int) = off := by omega
+  simp only [e]
+  rw [if_neg (by omega), if_neg (by omega)]
 
 theorem narrowU32_wrapAdd (a : Nat) (off : Int) :
     narrowU32 ((wrapAdd a off : Nat) : Int) = some ((wrapAdd a off : Nat) : Int) := by
